@@ -29,7 +29,7 @@ Range(s) == {s[i] : i \in 1..Len(s)}
 (* ------------------------------------------------------------------ valid schema family *)
 (* choice record: inh (inheritance shape), sx (supertype expression of the root), abs (root abstract), *)
 (* ak (attribute-kind preset), rules (DERIVE / INVERSE / UNIQUE / WHERE / FUNCTION present), aux (second schema) *)
-Types(c) == << [name |-> "colour", k |-> "enum", items |-> <<"red", "green", "blue">>, members |-> <<>>, base |-> T("")],
+Types(c) == << [name |-> "colour", k |-> "enum", items |-> <<"red_green", "red", "green", "blue", "blue_ish">>, members |-> <<>>, base |-> T("")],
                [name |-> "lab", k |-> "simple", items |-> <<>>, members |-> <<>>, base |-> T("STRING")],
                [name |-> "cnt", k |-> "simple", items |-> <<>>, members |-> <<>>, base |-> T("INTEGER")],
                [name |-> "pick", k |-> "select", items |-> <<>>, members |-> <<"e1", "lab", "cnt">>, base |-> T("")],
@@ -38,6 +38,8 @@ Types(c) == << [name |-> "colour", k |-> "enum", items |-> <<"red", "green", "bl
                 << [name |-> "colour2", k |-> "rename", items |-> <<>>, members |-> <<>>, base |-> T("colour")],
                    [name |-> "pick2", k |-> "rename", items |-> <<>>, members |-> <<>>, base |-> T("pick")],
                    [name |-> "nest", k |-> "aggr", items |-> <<>>, members |-> <<>>, base |-> AggOf("LIST", 1, 2, AggF("ARRAY", 0, 2, "INTEGER", TRUE, FALSE))] >>)
+(* (the enumeration declares an item before a proper prefix of it and another after one: a reader that matches    *)
+(* item names by prefix, or in declaration order without comparing lengths, confuses them)                         *)
 (* type shapes (choice field ts): "base" = the types above only; "aggs" = one named type and one attribute per      *)
 (* aggregate form the language allows (UNIQUE on ARRAY and LIST, OPTIONAL on ARRAY, fixed and open bounds, an     *)
 (* aggregate of flagged aggregates); "chain" = a defined type, a rename of it and a rename of the rename, for a   *)
@@ -136,6 +138,13 @@ NameMap(nm, x) ==
   ELSE IF nm = "p21" THEN
     CASE x = "e1" -> "data" [] x = "e2" -> "endsec" [] x = "e3" -> "header" [] x = "a1" -> "iso" [] x = "lab" -> "file_name"
       [] x = "red" -> "t" [] x = "green" -> "f" [] x = "blue" -> "u" [] OTHER -> x
+  ELSE IF nm = "us" THEN
+    \* underscore shapes: doubled and trailing underscores, digits after an underscore, one-letter names (the
+    \* generator and the library each derive class and accessor names from these by their own routines)
+    CASE x = "e1" -> "wheel__hub" [] x = "e2" -> "x" [] x = "e3" -> "a_1_b" [] x = "a1" -> "in__ner" [] x = "a2" -> "v_2"
+      [] x = "a3" -> "t_" [] x = "a4" -> "q__" [] x = "b1" -> "b_1_" [] x = "b2" -> "z" [] x = "c1" -> "c___1"
+      [] x = "lab" -> "lab__el" [] x = "cnt" -> "c_" [] x = "colour" -> "col__our" [] x = "pick" -> "p__k" [] x = "ilist" -> "i_1"
+      [] x = "red" -> "r__d" [] x = "green" -> "g_" [] x = "blue" -> "b" [] x = "red_green" -> "r__d_g" [] OTHER -> x
   ELSE x
 RECURSIVE RenTree(_, _)
 RenTree(nm, t) == IF t.k = "none" THEN t ELSE IF t.k = "leaf" THEN Leaf(NameMap(nm, t.e)) ELSE Op(t.k, [i \in 1..Len(t.kids) |-> RenTree(nm, t.kids[i])])
@@ -155,7 +164,7 @@ Choices(deep) ==
      x \in BOOLEAN}
   \cup {[inh |-> "chain", sx |-> "none", abs |-> FALSE, ak |-> 2, rules |-> FALSE, aux |-> FALSE, ts |-> t] : t \in TypeShapes(deep)}
   \cup {[inh |-> i, sx |-> "oneof", abs |-> FALSE, ak |-> 2, rules |-> FALSE, aux |-> FALSE, ts |-> [k |-> "base"], nm |-> n] :
-          i \in {"chain", "fan"}, n \in {"cxx", "py", "p21"}}
+          i \in {"chain", "fan"}, n \in {"cxx", "py", "p21", "us"}}
 
 (* ------------------------------------------------------------------ single-fault mutants (C04, C20) *)
 (* [class, at: index of the entity/type concerned, lexeme: the offending name a diagnostic should quote ("" = none), *)
@@ -183,6 +192,10 @@ Mutants(c) ==
   \* a supertype that names, in its SUPERTYPE OF expression, an entity which inherits it only through an intermediate
   \* subtype (the named entity does not list it, although it is an ancestor)
   \cup (IF c.inh = "chain" THEN {[M("subtype_not_listing", 1, "", "MISSING_SUPERTYPE") EXCEPT !.pos = "indirect"]} ELSE {})
+  \* an attribute name taken from a supertype that is not a direct one (the grandparent), and an inherited name taken
+  \* again by a derived attribute
+  \cup (IF c.inh = "chain" THEN {[M("inherited_redeclared", 3, "a1", "OVERLOADED_ATTR") EXCEPT !.pos = "indirect"]} ELSE {})
+  \cup (IF c.inh # "none" THEN {[M("inherited_redeclared", 2, "a1", "OVERLOADED_ATTR") EXCEPT !.pos = "derive"]} ELSE {})
   \cup {M("select_cycle", 0, "", "SELECT_LOOP")}
   \* the same cycle with entity members, and an expression that has to look through the cyclic select (attribute  \*
   \* access and group qualification on a value of that type), entity member before or after the select member
